@@ -17,6 +17,7 @@ import os
 import shutil
 import stat
 import sys
+import unicodedata
 import warnings
 from dataclasses import dataclass, field
 from typing import Any, Callable
@@ -93,12 +94,102 @@ SYMLINKS = [  # (link path, target text); "$R" is replaced by the sandbox root
 ]
 BASE_TARGETS = ("work/B", "work/B/sub")
 
+# --- names that differ from a base directory / a legitimate file only under a FOLDING of names ----
+# (letter case, Unicode normalisation form, a trailing dot or space).  On this case-sensitive,
+# normalisation-preserving file system they are all different directory entries; an
+# implementation that compares folded names takes them for the base directory.
+# (a) neighbours of the two static base targets
+DIRS += ["work/b", "work/b/sub", "work/B.", "work/B ", "work/\uff22",  # U+FF22 FULLWIDTH B (NFKC -> "B")
+         "work/B/Sub", "work/B/SUB", "work/B/\u017fub", "work/B/sub.", "work/B/sub "]  # U+017F LONG S
+FILES += ["work/b/data.bin", "work/b/other.bin", "work/b/only_b.bin", "work/b/sub/inner.bin",
+          # single-linked files named like hard links / symlinks of work/B (a stat of a folded path lands here)
+          "work/b/hl_to_out.bin", "work/b/ln_out_file",
+          "work/B./data.bin", "work/B /data.bin", "work/\uff22/data.bin",
+          "work/B/Sub/inner.bin", "work/B/SUB/inner.bin", "work/B/\u017fub/inner.bin",
+          "work/B/sub./inner.bin", "work/B/sub /inner.bin",
+          "work/B/DATA.bin",  # an own (allowed) file next to data.bin: a read must deliver ITS bytes
+          "outside/secret_hl3.bin"]
+HARDLINKS += [("outside/secret_hl3.bin", "work/B/Hl_Inside_A.bin")]  # case variant of a name, linked to outside
+SYMLINKS += [
+    ("work/B/Other.bin", "../../outside/other.bin"),  # case variant of other.bin leading outside
+    ("work/B/ln_case_dir", "../b"), ("work/B/ln_case_file", "../b/data.bin"),
+    ("work/B/ln_dotted_dir", "../B."), ("work/B/ln_spaced_file", "$R/work/B /data.bin"),
+    ("work/B/ln_wide_dir", "../\uff22"),
+    ("work/B/sub/ln_case_dir", "../Sub"), ("work/B/sub/ln_case_file", "../SUB/inner.bin"),
+    ("work/B/sub/ln_longs_file", "$R/work/B/\u017fub/inner.bin"), ("work/B/sub/ln_dotted_dir", "../sub."),
+    ("work/blink", "b"),
+]
+
+# (b) a family of directories whose names are pairwise equal under some folding; each of them is
+# used as base directory, the others are then its neighbours.  The stem has a precomposed
+# character (NFC != NFD) and an "s" (casefold("\u017f") == "s" while lower() keeps it).
+FOLD_STEM = "Mod\u00e8les"
+
+
+def name_variants(name: str) -> list[str]:
+    nfd = unicodedata.normalize("NFD", name)
+    wide = chr(0xFF21 + ord(name[0]) - ord("A")) + name[1:] if "A" <= name[0] <= "Z" else name
+    cands = [name.lower(), name.upper(), name.swapcase(), nfd, nfd.lower(), name + ".", name + " ",
+             name.lower() + ".", wide, name.replace("s", "\u017f")]
+    out: list[str] = []
+    for c in cands:
+        if c != name and c not in out:
+            out.append(c)
+    return out
+
+
+FOLD_NAMES = [FOLD_STEM] + name_variants(FOLD_STEM)
+FOLD_TARGETS = tuple(f"fold/{n}" for n in FOLD_NAMES)
+DIRS += ["fold"] + [d for t in FOLD_TARGETS for d in (t, t + "/sub")]
+for _i, _t in enumerate(FOLD_TARGETS):
+    FILES += [f"{_t}/data.bin", f"{_t}/sub/inner.bin", f"{_t}/only{_i}.bin"]
+    SYMLINKS.append((f"fold/via{_i}", FOLD_NAMES[_i]))
+    for _j, _n in enumerate(FOLD_NAMES):
+        if _j != _i:
+            SYMLINKS.append((f"{_t}/ln_d{_j}", f"../{_n}" if (_i + _j) % 2 else f"$R/fold/{_n}"))
+            SYMLINKS.append((f"{_t}/ln_f{_j}", f"$R/fold/{_n}/data.bin" if (_i + _j) % 3 == 0 else f"../{_n}/data.bin"))
+
+
+def is_fold_target(target: str) -> bool:
+    return target.startswith("fold/")
+
+
+def _fold_case(s: str) -> str:
+    return s.casefold()
+
+
+def _fold_unicode(s: str) -> str:
+    return unicodedata.normalize("NFKC", s)
+
+
+def _fold_trailing(s: str) -> str:
+    return "/".join(c.rstrip(". ") or c for c in s.split("/"))
+
+
+def name_variant_kind(rel: str, base_rel: str) -> str:
+    """``rel`` (a file, relative to the sandbox root) does not lie under ``base_rel``.  Which
+    folding of names would make it look as if it did?  '' if none.  Classification only."""
+    parts = rel.split("/")
+    n = base_rel.count("/") + 1
+    if len(parts) <= n:
+        return ""
+    head = "/".join(parts[:n])
+    if head == base_rel:
+        return ""
+    for kind, f in (("case", _fold_case), ("unicode-form", _fold_unicode), ("trailing-dot-space", _fold_trailing)):
+        if f(head) == f(base_rel):
+            return kind
+    every = lambda s: _fold_case(_fold_unicode(_fold_trailing(_fold_unicode(s))))  # noqa: E731
+    return "mixed" if every(head) == every(base_rel) else ""
+
 # Mutable area for the stateful cases (a tensor object kept alive while the files under it or
 # its base_dir change).  Self-contained: no hard link ever connects it with the static tree.
 DYN_DIRS = ["dyn", "dyn/base", "dyn/base/sub", "dyn/base_evil", "dyn/out", "dyn/out/sub",
-            "dyn/alt_sym", "dyn/alt_hl", "dyn/hold"]
+            "dyn/alt_sym", "dyn/alt_hl", "dyn/hold",
+            "dyn/Base", "dyn/Base/sub"]  # differs from dyn/base only in letter case
 DYN_FILES = ["dyn/base/w.bin", "dyn/base/other.bin", "dyn/base/sub/w2.bin", "dyn/base_evil/w.bin",
-             "dyn/out/w.bin", "dyn/out/w_hl.bin", "dyn/out/sub/w2.bin"]
+             "dyn/out/w.bin", "dyn/out/w_hl.bin", "dyn/out/sub/w2.bin",
+             "dyn/Base/w.bin", "dyn/Base/sub/w2.bin"]
 DYN_HARDLINKS = [("dyn/out/w_hl.bin", "dyn/alt_hl/w.bin")]
 DYN_SYMLINKS = [
     ("dyn/base/ln_w", "w.bin"), ("dyn/alt_sym/w.bin", "../out/w.bin"), ("dyn/alt_sym/sub", "../out/sub"),
@@ -384,6 +475,9 @@ def compute_truth(sb: Sandbox, base: Any, loc: Any) -> Truth:
                 cls = "symlink-file-out" if is_link else "symlink-dir-out"
                 if prefix_sib:
                     cls += "-prefix-sibling"
+            variant = name_variant_kind(entry.relpaths[0], base_rel)
+            if variant:  # the file lives under a directory whose name equals the base's under a folding
+                cls += f"+{variant}-variant-of-base"
             allowed1 = False
         t = Truth(True, allowed1, cls, key, entry.relpaths, base_rel)
     if allowed1 != allowed2:
